@@ -3,6 +3,7 @@
 package main
 
 import (
+	"encoding/json"
 	"fmt"
 	"sort"
 	"strings"
@@ -14,8 +15,8 @@ import (
 )
 
 const (
-	defaultCap2 = 110 // scheduling points per thread in 2-thread scenarios
-	defaultCap3 = 18  // ... in 3-thread scenarios
+	defaultCap2 = 150 // scheduling points per thread in 2-thread scenarios
+	defaultCap3 = 36  // ... in 3-thread scenarios
 	depthLimit  = 2   // call depth below the public entry point that is always a candidate
 )
 
@@ -49,6 +50,7 @@ type profile struct {
 	changeAt   []string          // sites at which the solo run saw the fingerprint change
 	enabled    map[string][]bool // site -> occurrence -> is a scheduling point
 	solo       bodies.Out
+	pollutes   string // non-empty: the solo run left package-level state changed (first differing path)
 }
 
 func fingerprint(st *bodies.State) (m, g uint64) {
@@ -82,10 +84,18 @@ func soloProfile(s bodies.Scenario, tid, cap int) (*profile, error) {
 		occ[site]++
 		return false
 	}
+	gBefore := verifrt.GlobalsHash()
+	var gDump string
+	if gBefore != 0 {
+		gDump = verifrt.GlobalsDump()
+	}
 	verifrt.Install(c)
 	p.solo = s.Run(st, tid)
 	verifrt.Install(nil)
 	p.yields = len(evs)
+	if verifrt.GlobalsHash() != gBefore {
+		p.pollutes = verifrt.DiffPath(gDump, verifrt.GlobalsDump())
+	}
 
 	var must, may []int
 	seenChange := map[string]bool{}
@@ -169,6 +179,7 @@ type ilExec struct {
 	writes    []write
 	lastPoint int
 	lastExit  int
+	poisoned  bool
 	outs      []bodies.Out
 }
 
@@ -255,6 +266,9 @@ func (x *ilExec) check(by int, site string, point int) {
 	}
 	x.lm, x.lg = m, g
 }
+
+// Poisoned: package-level state differs from what it was when the execution began.
+func (x *ilExec) Poisoned() bool { return x.poisoned }
 
 func (x *ilExec) AtPoint(p *sched.Point) []sched.Finding {
 	x.lastPoint = p.Index
@@ -343,7 +357,9 @@ func (x *ilExec) AtEnd(obs []string) (string, []sched.Finding) {
 		fs = append(fs, sched.Finding{Key: key, Detail: fmt.Sprintf("scenario %s: thread %d (%s) changed the %s; the change was first seen at scheduling point %d, yield site %s",
 			h.Name(), w.tid, labels[w.tid], what, w.point, w.site)})
 	}
-	if g := verifrt.GlobalsHash(); g != x.gAll0 && x.lg == x.g0 {
+	gEnd := verifrt.GlobalsHash()
+	x.poisoned = gEnd != x.gAll0
+	if g := gEnd; g != x.gAll0 && x.lg == x.g0 {
 		fs = append(fs, sched.Finding{Key: fmt.Sprintf("package-level table written: %s", h.s.Program.Name),
 			Detail: fmt.Sprintf("scenario %s: a package-level table classified read-only by syntax differs at the end of the execution: %s", h.Name(), verifrt.DiffPath(h.initGDump, verifrt.GlobalsDump()))})
 	}
@@ -363,7 +379,7 @@ func (x *ilExec) AtEnd(obs []string) (string, []sched.Finding) {
 			fs = append(fs, sched.Finding{
 				Key: fmt.Sprintf("%s output differs from solo run: %s: %s: %s", base(labels[tid]), h.s.Kind, h.s.Program.Name, cause),
 				Detail: fmt.Sprintf("scenario %s: thread %d (%s) produced %s (err %q), alone it produces %s (err %q); first difference: %s",
-					h.Name(), tid, labels[tid], o.Digest(), o.Err, h.profs[tid].solo.Digest(), h.profs[tid].solo.Err, firstDifference(h.profs[tid].solo, o, true)),
+					h.Name(), tid, labels[tid], o.Digest(), o.Err, h.profs[tid].solo.Digest(), h.profs[tid].solo.Err, firstDifference(h.profs[tid].solo, o, base(labels[tid]) != "spirv" && base(labels[tid]) != "dxil")),
 			})
 		}
 	}
@@ -389,6 +405,16 @@ type scenarioOut struct {
 	Capped   bool          `json:"capped"`
 	Report   *sched.Report `json:"report"`
 	EndState []string      `json:"end_states,omitempty"`
+	Skipped  string        `json:"skipped,omitempty"`
+}
+
+type soloReplay struct {
+	Kind     string `json:"kind"`
+	Property string `json:"property"`
+	Scenario string `json:"scenario"`
+	Thread   int    `json:"thread"`
+	Label    string `json:"label"`
+	Key      string `json:"key"`
 }
 
 type interleaveOut struct {
@@ -422,6 +448,30 @@ func runInterleave(f *flags) *interleaveOut {
 		if err != nil {
 			fatal(fmt.Errorf("%s: %v", s.Name(), err))
 		}
+		polluted := false
+		for tid, p := range h.profs {
+			if p.pollutes == "" {
+				continue
+			}
+			polluted = true
+			lab := p.label
+			if i := strings.IndexAny(lab, "#("); i > 0 {
+				lab = lab[:i]
+			}
+			key := fmt.Sprintf("%s writes package-level state: %s: %s", lab, s.Program.Name, p.pollutes)
+			path := writeReplay(f.replays, "solo-"+s.Name()+fmt.Sprintf("-t%d", tid), soloReplay{Kind: "solo", Property: "C12", Scenario: s.Name(), Thread: tid, Label: p.label, Key: key})
+			out.Violations = append(out.Violations, violation{Key: key, Replay: path, Count: 1,
+				Detail: fmt.Sprintf("scenario %s: thread %d (%s) run alone leaves package-level state changed (first differing path %s): compilations share state through a package-level variable, so output can depend on history and concurrent compilations are not independent; the interleaving exploration of this scenario is skipped because no two executions in one process would start from the same state", s.Name(), tid, p.label, p.pollutes)})
+		}
+		if polluted {
+			so := scenarioOut{Name: h.Name(), Cap: h.cap, Skipped: "a thread body changes package-level state when run alone",
+				Report: &sched.Report{Harness: h.Name(), Bound: bound, PerBound: make([]int, bound+1), Violations: []sched.Violation{}}}
+			for _, p := range h.profs {
+				so.Threads = append(so.Threads, threadInfo{p.label, p.yields, p.candidates, p.selected, p.capped, p.changeAt})
+			}
+			out.Scenarios = append(out.Scenarios, so)
+			continue
+		}
 		h.initGDump = verifrt.GlobalsDump()
 		rep, err := sched.Explore(h, sched.Options{Bound: bound, MaxSchedules: f.budget, ReplayDir: f.replays})
 		verifrt.Install(nil)
@@ -441,11 +491,32 @@ func runInterleave(f *flags) *interleaveOut {
 		}
 		out.Scenarios = append(out.Scenarios, so)
 		for _, v := range rep.Violations {
-			out.Violations = append(out.Violations, violation{Key: v.Key, Detail: fmt.Sprintf("%s; witness schedule (%d preemptions) %v; seen in %d of %d schedules", v.Detail, v.Preemptions, v.Choices, v.Schedules, rep.Schedules), Replay: v.Replay, Count: v.Schedules})
+			d := fmt.Sprintf("%s; witness schedule (%d preemptions) %v; seen in %d of %d schedules", v.Detail, v.Preemptions, v.Choices, v.Schedules, rep.Schedules)
+			if !v.Confirmed {
+				d += "; the execution changed process-wide state, so the witness is confirmed by replaying it in fresh processes"
+			}
+			out.Violations = append(out.Violations, violation{Key: v.Key, Detail: d, Replay: v.Replay, Count: v.Schedules})
 		}
 	}
 	sort.SliceStable(out.Violations, func(i, j int) bool { return out.Violations[i].Key < out.Violations[j].Key })
 	return out
+}
+
+func replaySolo(f *flags, b []byte) any {
+	var sr soloReplay
+	if err := json.Unmarshal(b, &sr); err != nil {
+		fatal(err)
+	}
+	s, err := bodies.ScenarioByName(f.repo, sr.Scenario)
+	if err != nil {
+		fatal(err)
+	}
+	p, err := soloProfile(s, sr.Thread, capFor(f, s))
+	if err != nil {
+		fatal(err)
+	}
+	return map[string]any{"kind": "solo", "scenario": sr.Scenario, "thread": sr.Thread, "reproduced": p.pollutes != "",
+		"signature": "pollutes=" + p.pollutes + " out=" + p.solo.Digest(), "first_differing_path": p.pollutes}
 }
 
 func replayInterleave(f *flags, path string) any {
